@@ -18,12 +18,12 @@ type c18Feature struct {
 
 var c18Features = []c18Feature{
 	{"editable", []string{"no", "yes"}},
-	{"role", []string{"none", "presentation", "grid", "treegrid", "main", "other"}},
+	{"role", []string{"none", "presentation", "grid", "treegrid", "main", "other", "rowgroup", "columnheader"}},
 	{"drole", []string{"none", "row", "navigation", "other"}},
 	{"datatable", []string{"absent", "0", "1"}},
 	{"nested", []string{"no", "yes"}},
 	{"shape", []string{"3x4", "1x2", "2x1", "2x2", "2x4", "2x5", "4+4+2", "4+4+3", "19x2", "20x2", "20x1+4x2", "19x1+5x2", "1+2+2", "2x1+1x5"}},
-	{"header", []string{"none", "caption", "thead", "tfoot", "colgroup", "col", "th", "caption-empty", "th-empty", "colgroup+th-empty", "col+th-empty", "th-empty-then-th"}},
+	{"header", []string{"none", "caption", "thead", "tfoot", "colgroup", "col", "th", "caption-empty", "th-empty", "colgroup+th-empty", "col+th-empty", "th-empty-then-th", "caption-empty+thead", "caption-empty+col", "th-empty+tfoot"}},
 	{"cell", []string{"none", "abbr-attr", "headers-attr", "scope-attr", "abbr-lone", "abbr-plus"}},
 	{"summary", []string{"no", "yes"}},
 	{"embedded", []string{"none", "embed", "object", "applet", "iframe"}},
@@ -69,6 +69,9 @@ func c18Table(v []int, t *ora.Tok) string {
 		if r == "other" {
 			r = "figure"
 		}
+		if r == "rowgroup" {
+			r = "RowGroup" // roles are compared case-insensitively
+		}
 		attrs = append(attrs, "role=\""+r+"\"")
 	}
 	if d := f(3); d != "absent" {
@@ -87,8 +90,10 @@ func c18Table(v []int, t *ora.Tok) string {
 	switch hdr {
 	case "caption":
 		sb.WriteString("<caption>" + t.W(2) + "</caption>")
-	case "caption-empty":
+	case "caption-empty", "caption-empty+thead":
 		sb.WriteString("<caption> </caption>")
+	case "caption-empty+col":
+		sb.WriteString("<caption></caption><col>")
 	case "colgroup", "colgroup+th-empty":
 		sb.WriteString("<colgroup></colgroup>")
 	case "col", "col+th-empty":
@@ -97,7 +102,7 @@ func c18Table(v []int, t *ora.Tok) string {
 	rows := c18Rows(f(5))
 	openBody, closeBody := "", ""
 	switch hdr {
-	case "thead":
+	case "thead", "caption-empty+thead":
 		openBody, closeBody = "<thead>", "</thead>"
 	case "tfoot":
 		openBody, closeBody = "<tfoot>", "</tfoot>"
@@ -173,6 +178,12 @@ func c18Table(v []int, t *ora.Tok) string {
 		sb.WriteString("</tr>")
 		if ri == 0 {
 			sb.WriteString(closeBody)
+		}
+		if hdr == "th-empty+tfoot" && ri == len(rows)-2 {
+			sb.WriteString("<tfoot>")
+		}
+		if hdr == "th-empty+tfoot" && ri == len(rows)-1 && len(rows) >= 2 {
+			sb.WriteString("</tfoot>")
 		}
 	}
 	sb.WriteString("</table>")
@@ -533,7 +544,7 @@ func init() {
 	eng.Register(&eng.Prop{
 		ID:        "C18",
 		DesignRef: "§5 C18",
-		Rule: "feature vectors editable{2} x table role{6} x descendant role{4} x datatable{3} x nested{2} x shape{14: 3x4,1x2,2x1,2x2,2x4,2x5,4+4+2,4+4+3,19x2,20x2, 20 one-cell rows + 4 two-cell rows, 19+5, ragged 1+2+2, 1+1+5} x header{12} x cell feature{6} x summary{2} x embedded{5} (2.9e6 vectors); " +
+		Rule: "feature vectors editable{2} x table role{8} x descendant role{4} x datatable{3} x nested{2} x shape{14: 3x4,1x2,2x1,2x2,2x4,2x5,4+4+2,4+4+3,19x2,20x2, 20 one-cell rows + 4 two-cell rows, 19+5, ragged 1+2+2, 1+1+5} x header{15} x cell feature{6} x summary{2} x embedded{5} (4.8e6 vectors); " +
 			"quick: every vector with <= 3 features off the default in body and <= 2 in {div, li, blockquote, layout-table cell, after an earlier table that is data by a cell attribute / summary / 5 columns / 20 rows / th, after an earlier layout table}; thorough: all vectors in body and <= 3 deviations in the other contexts. Each vector is rendered as a table after two content paragraphs. " +
 			"Oracle: the statement's 14-rule decision list evaluated on the parsed table vs. observation through the public API (a form-control probe in the first cell survives, inside a <table> together with the first and last cell words, iff the table was preserved as data). Vectors whose verdict depends on whether <th> counts as a cell, and empty caption/th, are observe-only. " +
 			"Non-trivial = >= 2 rule-relevant features set, or a threshold shape.",
